@@ -37,7 +37,7 @@ SheetGrids ==
       << <<0, 0, 1>>, <<1, 1, 1>> >> }                      \* two empty header cells (header names collide)
 
 (* page = lines of token counts *)
-Pages == { <<>>, <<1>>, <<2, 1>>, <<1, 1, 1>> }
+Pages == { <<>>, <<1>>, <<2, 1>>, <<1, 1, 1>>, <<99>> }     \* <<99>>: a position that holds no unit of this kind (gap)
 
 (* typed sheet = the kinds of the two cells of its single data row (below a header row of two strings) *)
 TypedKinds == {"n", "nf", "z", "b", "bf", "d", "date", "t", "e", "f", "s", "empty"}
